@@ -829,6 +829,7 @@ func c04Reproduction(r *an.Run) {
 		r.Check(helperFailurePropagates(anchor, f), short(anchor)+"|helper-failure-propagates", anchor.Pos(), "a failure of %s makes Replace fail", short(f))
 	}
 	var run *ssa.Call
+	var runs []*ssa.Call
 	for _, c := range an.CallsTo(f, "builtin:append") {
 		call := c.(*ssa.Call)
 		if !sl.Loop.Blocks[call.Block()] || an.ShortType(call.Type()) != "[]reflect.Value" {
@@ -843,41 +844,63 @@ func c04Reproduction(r *an.Run) {
 			continue
 		}
 		run = call
+		runs = append(runs, call)
 	}
 	if !r.Check(run != nil, short(f)+"|run-appended", sl.If.Pos(), "the recorded run is appended to the rebuilt list") {
 		return
 	}
 	// what is appended is what lookupSliceDotsSkipped returned for this '...' (possibly kept in a local table in between)
-	whole := false
-	for v := range sliceAcross(run.Call.Args[1]) {
-		if ex, ok := v.(*ssa.Extract); ok && ex.Index == 0 {
-			if c, ok := ex.Tuple.(*ssa.Call); ok && an.StaticCallee(c) == r.P.Func(engine, "lookupSliceDotsSkipped") {
-				whole = true
-			}
-		}
-		// the helper may hand back the record itself (the run and its region in one struct): the run is then
-		// the record's only list of values
-		if c, ok := v.(*ssa.Call); ok && an.StaticCallee(c) == r.P.Func(engine, "lookupSliceDotsSkipped") {
-			if st, isStruct := c.Type().Underlying().(*types.Struct); isStruct {
-				lists := 0
-				for i := 0; i < st.NumFields(); i++ {
-					if an.ShortType(st.Field(i).Type()) == "[]reflect.Value" {
-						lists++
-					}
-				}
-				if lists == 1 {
+	isWhole := func(run *ssa.Call) bool {
+		whole := false
+		for v := range sliceAcross(run.Call.Args[1]) {
+			if ex, ok := v.(*ssa.Extract); ok && ex.Index == 0 {
+				if c, ok := ex.Tuple.(*ssa.Call); ok && an.StaticCallee(c) == r.P.Func(engine, "lookupSliceDotsSkipped") {
 					whole = true
 				}
 			}
-		}
-		if _, isSub := v.(*ssa.Slice); isSub {
-			if al, ok := v.(*ssa.Slice).X.(*ssa.Alloc); !ok || al.Comment != "varargs" {
-				whole = false
-				break
+			// the helper may hand back the record itself (the run and its region in one struct): the run is then
+			// the record's only list of values
+			if c, ok := v.(*ssa.Call); ok && an.StaticCallee(c) == r.P.Func(engine, "lookupSliceDotsSkipped") {
+				if st, isStruct := c.Type().Underlying().(*types.Struct); isStruct {
+					lists := 0
+					for i := 0; i < st.NumFields(); i++ {
+						if an.ShortType(st.Field(i).Type()) == "[]reflect.Value" {
+							lists++
+						}
+					}
+					if lists == 1 {
+						whole = true
+					}
+				}
+			}
+			if _, isSub := v.(*ssa.Slice); isSub {
+				if al, ok := v.(*ssa.Slice).X.(*ssa.Alloc); !ok || al.Comment != "varargs" {
+					return false
+				}
 			}
 		}
+		return whole
+	}
+	whole := true
+	for _, c := range runs {
+		whole = whole && isWhole(c)
 	}
 	r.Check(whole, short(f)+"|run-whole", run.Pos(), "the run appended is the one lookupSliceDotsSkipped returned, whole and in its original order")
+	// a condition that only chooses how the run is appended (both arms append it whole) drops nothing
+	bothArmsAppend := func(iff *ssa.If) bool {
+		for _, succ := range iff.Block().Succs {
+			has := false
+			for _, c := range runs {
+				if succ.Dominates(c.Block()) && len(succ.Preds) == 1 && isWhole(c) {
+					has = true
+				}
+			}
+			if !has {
+				return false
+			}
+		}
+		return true
+	}
 	// control dependences of the append inside the sections loop: only the index bound test
 	for _, cd := range r.P.AllCtrlDeps(run.Block()) {
 		if !sl.Loop.Blocks[cd.Block] || cd.Block == sl.Loop.Header {
@@ -906,6 +929,9 @@ func c04Reproduction(r *an.Run) {
 			}
 		}
 		if errTest(iff) {
+			inner = true
+		}
+		if !bound && !inner && bothArmsAppend(iff) {
 			inner = true
 		}
 		r.Check(bound || inner, short(f)+"|run-unconditional|"+condText(iff.Cond), iff.Pos(), "the run of '...' number i is reproduced whenever i < len(skipped): no other condition may drop elided elements (found condition %s)", condText(iff.Cond))
